@@ -4,7 +4,7 @@ import json
 import os
 
 ROOT = os.path.dirname(os.path.dirname(os.path.abspath(__file__)))
-ROUND = {"a": 1, "b": 1, "c": 2, "d": 2, "e": 3, "f": 3, "g": 4, "h": 4}
+ROUND = {"a": 1, "b": 1, "c": 2, "d": 2, "e": 3, "f": 3, "g": 4, "h": 4, "i": 5, "j": 5}
 print("| id | round | file(s) | change | reported as (quick tier, seed 0) |")
 print("|---|---|---|---|---|")
 for name in sorted(os.listdir(os.path.join(ROOT, "seeded"))):
